@@ -33,6 +33,7 @@ import (
 	"testing"
 	"time"
 
+	"github.com/pion/rtp"
 	"github.com/pion/srtp/v3"
 )
 
@@ -44,9 +45,10 @@ type c30Mut struct {
 }
 
 type c30Case struct {
-	Kind      string   `json:"kind"`      // sdp | cand | rtp
-	Semantics int      `json:"semantics"` // 0 unified, 1 plan-b, 2 unified with fallback
-	Local     int      `json:"local"`     // victim's own state: 0 nothing, 1 tracks, 2 recvonly transceivers + dc, 3 tracks + dc
+	Kind      string   `json:"kind"`             // sdp | cand | rtp
+	Semantics int      `json:"semantics"`        // 0 unified, 1 plan-b, 2 unified with fallback
+	Local     int      `json:"local"`            // victim's own state: 0 nothing, 1 tracks, 2 recvonly transceivers + dc, 3 tracks + dc
+	Codecs    int      `json:"codecs,omitempty"` // victim's MediaEngine: 0 pion's defaults, 1 Opus only, 2 VP8 only (sections of the other kind share no codec)
 	AsAnswer  bool     `json:"as_answer,omitempty"`
 	Base      int      `json:"base"` // which valid description is mutated
 	BaseSeed  uint64   `json:"base_seed"`
@@ -85,7 +87,7 @@ var c30Lines = []string{
 func c30GenMuts(r *vfRand, n int) []c30Mut {
 	var out []c30Mut
 	for i := 0; i < n; i++ {
-		m := c30Mut{Op: r.Intn(10), A: r.Intn(100000), B: r.Intn(100000)}
+		m := c30Mut{Op: r.Intn(12), A: r.Intn(100000), B: r.Intn(100000)}
 		switch m.Op {
 		case 3:
 			m.Lit = vfPick(r, c30Numbers)
@@ -145,6 +147,32 @@ func c30Mutate(sdp string, muts []c30Mut) string {
 			lines[i] = lines[i][:p] + m.Lit + lines[i][p:]
 		case 8: // drop everything after this line
 			lines = lines[:i+1]
+		case 11: // the section's direction changes (and it announces a source)
+			lo := i
+			for lo > 0 && !strings.HasPrefix(lines[lo], "m=") {
+				lo--
+			}
+			for k := lo; k < len(lines) && (k == lo || !strings.HasPrefix(lines[k], "m=")); k++ {
+				switch lines[k] {
+				case "a=recvonly", "a=inactive", "a=sendrecv", "a=sendonly":
+					lines[k] = []string{"a=sendonly", "a=sendrecv", "a=recvonly", "a=inactive"}[m.B%4]
+					if m.B%4 < 2 {
+						lines = append(lines[:k+1:k+1], append([]string{fmt.Sprintf("a=ssrc:%d cname:hostile", 4000+m.B%1000), fmt.Sprintf("a=ssrc:%d msid:hs ht", 4000+m.B%1000)}, lines[k+1:]...)...)
+					}
+				}
+			}
+		case 10: // every codec of one section becomes one the victim does not know
+			lo := i
+			for lo > 0 && !strings.HasPrefix(lines[lo], "m=") {
+				lo--
+			}
+			for k := lo; k < len(lines) && (k == lo || !strings.HasPrefix(lines[k], "m=")); k++ {
+				if strings.HasPrefix(lines[k], "a=rtpmap:") {
+					if f := strings.SplitN(lines[k], " ", 2); len(f) == 2 {
+						lines[k] = f[0] + " X" + f[1]
+					}
+				}
+			}
 		case 9: // m-line: port 0 / other protocol / no formats
 			for k := 0; k < len(lines); k++ {
 				j := (i + k) % len(lines)
@@ -216,8 +244,19 @@ func c30BrowserExtras(r *vfRand, sdp string) string {
 
 func c30Gen(seed uint64, idx, total int, tier string) any {
 	r := vfNewRand(seed, "c30")
-	c := &c30Case{Semantics: r.Intn(3), Local: r.Intn(4), Base: r.Intn(6), BaseSeed: r.U64(), NetSeed: r.U64()}
-	switch x := r.Intn(10); {
+	c := &c30Case{Semantics: r.Intn(3), Local: r.Intn(4), Codecs: vfPick(r, []int{0, 0, 0, 1, 2}), Base: r.Intn(6), BaseSeed: r.U64(), NetSeed: r.U64()}
+	switch x := r.Intn(12); {
+	case x >= 10:
+		// a real peer whose descriptions are mutated on the way: the connection can come up, so the
+		// background work runs against live transports
+		c.Kind = "live"
+		c.Muts = c30GenMuts(r, vfPick(r, []int{1, 1, 2, 3}))
+		if r.Bool(0.5) {
+			c.Muts[0].Op = vfPick(r, []int{10, 11, 5, 6})
+			if c.Muts[0].Op == 5 || c.Muts[0].Op == 6 {
+				c.Muts[0].Lit = vfPick(r, c30Lines)
+			}
+		}
 	case x < 7:
 		c.Kind = "sdp"
 		c.AsAnswer = r.Bool(0.3)
@@ -233,6 +272,7 @@ func c30Gen(seed uint64, idx, total int, tier string) any {
 		c.Cands = c30GenCands(r, r.Range(2, 10))
 	default:
 		c.Kind = "rtp"
+		c.Codecs = 0 // (the pair has to negotiate the hostile peer's tracks)
 		c.Pkts, c.Rtcps = c30GenPackets(r)
 	}
 	return c
@@ -391,6 +431,12 @@ func c30Victim(c *c30Case, nw *vfNetSim) (*vfPeer, error) {
 	h, _ := nw.addHost("10.0.1.2")
 	a, err := vfNewPeer("A", h, func(se *SettingEngine, me *MediaEngine, cfg *Configuration) {
 		cfg.SDPSemantics = []SDPSemantics{SDPSemanticsUnifiedPlan, SDPSemanticsPlanB, SDPSemanticsUnifiedPlanWithFallback}[c.Semantics%3]
+		switch c.Codecs {
+		case 1:
+			_ = me.RegisterCodec(RTPCodecParameters{RTPCodecCapability: RTPCodecCapability{MimeType: MimeTypeOpus, ClockRate: 48000, Channels: 2}, PayloadType: 111}, RTPCodecTypeAudio)
+		case 2:
+			_ = me.RegisterCodec(RTPCodecParameters{RTPCodecCapability: RTPCodecCapability{MimeType: MimeTypeVP8, ClockRate: 90000}, PayloadType: 96}, RTPCodecTypeVideo)
+		}
 	})
 	if err != nil {
 		return nil, err
@@ -484,10 +530,12 @@ func c30Run(t *testing.T, cj []byte, res *vfResult) {
 					muts = nil
 				}
 				offer = c30Mutate(offer, muts)
+				lines = append(lines, "offer: "+sgSummary(vfParseSDP(offer)))
 				if apply("SetRemoteDescription(offer)", func() error { return a.pc.SetRemoteDescription(SessionDescription{Type: SDPTypeOffer, SDP: offer}) }) {
 					res.stat("mutated_offers_accepted", 1)
 					var answer SessionDescription
 					if apply("CreateAnswer", func() (e error) { answer, e = a.pc.CreateAnswer(nil); return }) {
+						lines = append(lines, "answer: "+sgSummary(vfParseSDP(answer.SDP)))
 						apply("SetLocalDescription(answer)", func() error { return a.pc.SetLocalDescription(answer) })
 					}
 				}
@@ -516,6 +564,60 @@ func c30Run(t *testing.T, cj []byte, res *vfResult) {
 				}
 				apply(fmt.Sprintf("AddICECandidate(%q)", cs), func() error { return a.pc.AddICECandidate(init) })
 				res.stat("candidate_strings_tried", 1)
+			}
+			vfSettle(5 * time.Second)
+		case "live":
+			hb, _ := nw.addHost("10.0.2.2")
+			b, err := vfNewPeer("B", hb, func(se *SettingEngine, me *MediaEngine, cfg *Configuration) {
+				cfg.SDPSemantics = []SDPSemantics{SDPSemanticsUnifiedPlan, SDPSemanticsPlanB, SDPSemanticsUnifiedPlanWithFallback}[c.Semantics%3]
+			})
+			if err != nil {
+				res.Verdict, res.Detail = "error", err.Error()
+				return
+			}
+			defer func() { _ = b.pc.Close() }()
+			tv, _ := NewTrackLocalStaticRTP(RTPCodecCapability{MimeType: MimeTypeVP8, ClockRate: 90000}, "hv", "hs")
+			ta, _ := NewTrackLocalStaticRTP(RTPCodecCapability{MimeType: MimeTypeOpus, ClockRate: 48000, Channels: 2}, "ha", "hs")
+			switch c.Base % 3 {
+			case 0:
+				_, _ = b.pc.AddTrack(tv)
+				_, _ = b.pc.AddTrack(ta)
+			case 1:
+				_, _ = b.pc.AddTransceiverFromKind(RTPCodecTypeVideo, RTPTransceiverInit{Direction: RTPTransceiverDirectionRecvonly})
+				_, _ = b.pc.AddTrack(ta)
+			case 2:
+				_, _ = b.pc.AddTrack(tv)
+			}
+			_, _ = b.pc.CreateDataChannel("hd", nil)
+			off, err := b.pc.CreateOffer(nil)
+			if err == nil {
+				err = b.pc.SetLocalDescription(off)
+			}
+			if err != nil {
+				res.Verdict, res.Detail = "error", "hostile peer's own offer: "+err.Error()
+				return
+			}
+			full := vfGatherDone(b)
+			mutated := c30Mutate(full.SDP, c.Muts)
+			lines = append(lines, "offer: "+sgSummary(vfParseSDP(mutated)))
+			if apply("SetRemoteDescription(offer)", func() error { return a.pc.SetRemoteDescription(SessionDescription{Type: SDPTypeOffer, SDP: mutated}) }) {
+				var answer SessionDescription
+				if apply("CreateAnswer", func() (e error) { answer, e = a.pc.CreateAnswer(nil); return }) {
+					lines = append(lines, "answer: "+sgSummary(vfParseSDP(answer.SDP)))
+					if apply("SetLocalDescription(answer)", func() error { return a.pc.SetLocalDescription(answer) }) {
+						if ad := vfGatherDone(a); ad != nil {
+							_ = b.pc.SetRemoteDescription(*ad) // (the hostile peer's own trouble does not count)
+						}
+					}
+				}
+			}
+			if vfWaitFor(15*time.Second, func() bool { return a.pc.ICEConnectionState() == ICEConnectionStateConnected }) {
+				res.stat("live_runs_ice_connected", 1)
+			}
+			vfSettle(3 * time.Second)
+			for i := 0; i < 6; i++ {
+				_ = tv.WriteRTP(&rtp.Packet{Header: rtp.Header{Version: 2, SequenceNumber: uint16(i), Timestamp: uint32(i) * 3000}, Payload: []byte{1, 2, 3, 4}})
+				_ = ta.WriteRTP(&rtp.Packet{Header: rtp.Header{Version: 2, SequenceNumber: uint16(i), Timestamp: uint32(i) * 960}, Payload: []byte{5, 6, 7}})
 			}
 			vfSettle(5 * time.Second)
 		case "rtp":
